@@ -170,8 +170,8 @@ func (s *S) quiesce(live bool, where string) {
 		s.c.Count("recv-unsettled")
 	}
 	m := e.Snapshot(true)
-	kase := fmt.Sprintf("%s getters{sent=%d recv=%d inflight=%d err=%d drop=%d asyncErr=%d reconnecting=%d reconnects=%d} independent{peerRecv=%d peerSent=%d dispatchEvidence=%d err=%d drop=%d asyncErr=%d reconnects=%d}",
-		where, m[0], m[1], m[2], m[3], m[4], m[5], m[6], m[7], x.sent, x.recvHi, x.recvEv, x.err, x.drop, x.aerr, s.reconnects)
+	kase := fmt.Sprintf("%s sentDelta=%d getters{sent=%d recv=%d inflight=%d err=%d drop=%d asyncErr=%d reconnecting=%d reconnects=%d} independent{peerRecv=%d peerSent=%d dispatchEvidence=%d err=%d drop=%d asyncErr=%d reconnects=%d}",
+		where, m[0]-x.sent, m[0], m[1], m[2], m[3], m[4], m[5], m[6], m[7], x.sent, x.recvHi, x.recvEv, x.err, x.drop, x.aerr, s.reconnects)
 	if m[2] != 0 {
 		s.fail("in-flight gauge not zero at a quiescent point", kase)
 	}
